@@ -236,6 +236,12 @@ func (e *c01Env) runCase(t *rapid.T, b *lpgen.Batch, endpoint int) {
 	verifkit.Eval()
 	verifkit.Class(fmt.Sprintf("L2-endpoint-%d", endpoint))
 	verifkit.Class(fmt.Sprintf("L2-status-%d", resp.StatusCode))
+	verifkit.Class("L2-precision:" + b.Precision)
+	for i := range b.Points {
+		for _, f := range b.Points[i].Feats {
+			verifkit.Class("L2-feat:" + f)
+		}
+	}
 	ferr := e.buf.FlushAll(context.Background())
 	if resp.StatusCode != 204 {
 		// not an accepted request: nothing is claimed about it
